@@ -288,15 +288,33 @@ fn check_doc(case: &Case, doc: &str) -> Result<bool, String> {
             ));
         }
         // background row
+        // (a line of printable ASCII occupies one cell per character, whatever width measure the
+        // renderer uses: there the fills are compared cell by cell, so that a background neither
+        // stops short of its text nor runs on under the text that follows)
+        let cellwise = line.iter().all(|(_, ch)| (' '..='~').contains(ch));
+        let want_cells = want_bg.clone();
         want_bg.dedup();
         if rows.len() == 2 {
             let mut got_bg: Vec<Option<Rgb>> = vec![];
+            let mut got_cells: Vec<Option<Rgb>> = vec![];
             for span in rows[0].elements() {
                 if span.text().is_empty() {
                     continue;
                 }
                 let p = resolve(span.attr("class").unwrap_or(""), &sheet)?;
                 got_bg.push(p.fill);
+                got_cells.extend(span.text().chars().map(|_| p.fill));
+            }
+            if cellwise {
+                let trim = |v: &[Option<Rgb>]| v[..v.iter().rposition(|x| x.is_some()).map_or(0, |i| i + 1)].to_vec();
+                let (g, w) = (trim(&got_cells), trim(&want_cells));
+                if g != w {
+                    let i = g.iter().zip(w.iter()).position(|(a, b)| a != b).unwrap_or(g.len().min(w.len()));
+                    return Err(format!(
+                        "line {li}: background row, cell #{i}: filled with {:?} but the background in effect for that cell's character is {:?} (row has {} filled cells, the text {})",
+                        g.get(i).copied().flatten(), w.get(i).copied().flatten(), g.len(), w.len()
+                    ));
+                }
             }
             got_bg.dedup();
             let all_none = |v: &Vec<Option<Rgb>>| v.iter().all(|x| x.is_none());
